@@ -121,6 +121,15 @@ CLAIMED = {
             "offset used for the row index, V::new over the filled digest vector), in both builds. That rows equal polynomial "
             "values is numerical and not decided.",
             "rustc MIR of both feature configurations", "DESIGN.md section 4, C28"),
+    "C14": ("symbolic reading of MIR integer operands (pointer / length / capacity of raw-parts casts), dominance of comparison edges, closure provenance",
+            "Decides five structural clauses of the batch utilities, each a necessary condition of the documented behaviour: (R1) group_slice_elements / flatten_slice_elements / "
+            "flatten_vector_elements re-own the source's pointer with length (and capacity) scaled by the const generic N, the dividing cast only behind a divisibility test, the "
+            "source vector wrapped in ManuallyDrop and never dropped; (R2) transpose_slice allocates len / N rows behind the divisibility test, writes entry j for j in 0..N and reads "
+            "the source at an index depending on row, column and row count; (R3) batch closures start from the batch offset (base.exp(batch_offset); values[offset..offset + batch.len()]), "
+            "which the default-feature tests cannot observe; (R4) serial_batch_inversion tests for ZERO in both passes, multiplies only by non-zero inputs, stores ZERO for a zero input and "
+            "inverts once between the passes; (R5) add_in_place / mul_acc assert equal lengths before zip. Thorough tier repeats the rules on the concurrent build. "
+            "The element-wise values (powers, inverses, sums) and the transposed order itself are numerical and not decided.",
+            "rustc MIR of both feature configurations; field arithmetic exact (C10); rayon batches disjoint and ordered (C06)", "DESIGN.md section 4, C14"),
     "C16": ("abstract interpretation of the S-box code over monomial exponents (exponents.py) + call-order / constant rules",
             "Decides three structural clauses of the Rescue hashers (Rp62_248, Rp64_256, RpJive64_256): (R1) the exponent to which apply_sbox raises every state element, "
             "computed by interpreting its MIR with each element abstracted to its exponent (square -> 2e, product -> sum, helper calls and element-wise iterator "
@@ -151,7 +160,6 @@ NOT_APPLICABLE = {
     "C10": "Exactness of modular arithmetic over all 2^64/2^128 representations needs bit-precise reasoning (solver or exhaustive execution); guard/interval analysis cannot relate Montgomery reduction to z mod M.",
     "C12": "FFT = naive evaluation is value-level; the only structural clause (schedule independence of the parallel code) is decided under C06.",
     "C13": "Polynomial helper results are numerical; no invariant of the control-flow graph implies them.",
-    "C14": "Element-wise results and batch-boundary behaviour are numerical; the race-freedom part is covered by C06.",
     "C18": "Root/opening consistency and parallel = sequential build are numerical; the rejection/no-panic part is C19.",
     "C21": "Assertion step sets / overlap detection are arithmetic case analysis over run-time integers; deciding exactness is enumeration, i.e. execution.",
     "C22": "Vanishing of boundary constraints on asserted cells is numerical (interpolation, divisor evaluation).",
